@@ -485,7 +485,14 @@ where
             Ok(())
         };
         let result = f(self);
-        let _ = self.read_byte();
+        let trailing = self.read_byte();
+        // A failure of the card beats a failure of this extra byte, but an
+        // SPI error here is still an SPI error
+        let result = result.and(trailing.map(|_| ()));
+        if result.is_err() {
+            // whatever failed, we did not get through: start over next time
+            self.card_type = None;
+        }
         result
     }
 
